@@ -141,13 +141,14 @@ theorem vv_safe (slot off width typeId : Word) (env : JEnv) (tr : Tracer) :
       rw [hv]
       exact ⟨liftKey_not_panic _, Nat.le_refl _, rfl, rfl⟩
 
-theorem extractStorageLen_odd (w : Nat) (h : w % 2 = 1) (hl : w / 2 < U64) :
+theorem extractStorageLen_odd (w : Nat) (h : w % 2 = 1) (hl : w / 2 ≤ U64 - 32) :
     extractStorageLen w = if w / 2 ≥ 32 then .ok (w / 2) else .error "storage encoding error" := by
+  have hU := U64_eq
   unfold extractStorageLen
   simp only [h]
   by_cases c : w / 2 < 32
   · simp [c]
-  · have : ¬ (w / 2 ≥ U64) := by omega
+  · have : ¬ (w / 2 ≥ U64 ∨ w / 2 > U64 - 32) := by omega
     have c2 : w / 2 ≥ 32 := by omega
     simp [c, this, c2]
 
@@ -158,19 +159,20 @@ theorem extractStorageLen_even (w : Nat) (h : w % 2 = 0) :
   have hU := U64_eq
   simp only [h, e]
   by_cases c : w % 256 / 2 < 32
-  · have : ¬ (w % 256 / 2 ≥ U64) := by omega
+  · have : ¬ (w % 256 / 2 ≥ U64 ∨ w % 256 / 2 > U64 - 32) := by omega
     simp [c, this]
   · simp [c]
 
-theorem extractStorageLen_huge (w : Nat) (h : w % 2 = 1) (hl : w / 2 ≥ U64) :
+theorem extractStorageLen_huge (w : Nat) (h : w % 2 = 1) (hl : w / 2 > U64 - 32) :
     extractStorageLen w = .error "storage too large to load" := by
   have hU := U64_eq
   unfold extractStorageLen
   have h1 : ¬ (w / 2 < 32) := by omega
-  simp [h, h1, hl]
+  have h2 : w / 2 ≥ U64 ∨ w / 2 > U64 - 32 := Or.inr hl
+  simp [h, h1, h2]
 
 theorem extractStorageLen_lt (w : Nat) (n : Nat) (h : extractStorageLen w = .ok n) :
-    n < U64 ∧ (n < 32 ∨ (n ≥ 32 ∧ n = w / 2)) := by
+    n ≤ U64 - 32 ∧ (n < 32 ∨ (n ≥ 32 ∧ n = w / 2)) := by
   have hU := U64_eq
   by_cases c : w % 2 = 0
   · rw [extractStorageLen_even w c] at h
@@ -181,7 +183,7 @@ theorem extractStorageLen_lt (w : Nat) (n : Nat) (h : extractStorageLen w = .ok 
       exact ⟨by omega, Or.inl c2⟩
     · rw [if_neg c2] at h; cases h
   · have c' : w % 2 = 1 := by omega
-    by_cases hl : w / 2 < U64
+    by_cases hl : w / 2 ≤ U64 - 32
     · rw [extractStorageLen_odd w c' hl] at h
       by_cases c2 : w / 2 ≥ 32
       · rw [if_pos c2] at h
@@ -211,7 +213,9 @@ theorem vr_safe (slot typeId : Word) (env : JEnv) (tr : Tracer) (hwf : env.WF) :
         rcases hcase with h | h
         · omega
         · exact h.2
-      have hb := (show n ≤ 32 * slotCount n ∧ slotCount n ≤ n / 32 + 1 by unfold slotCount; split <;> omega)
+      have hU := U64_eq
+      have hb := (show n ≤ 32 * slotCount n ∧ slotCount n ≤ n / 32 + 1 by
+        unfold slotCount; rw [Nat.mod_eq_of_lt (by omega)]; omega)
       have hl := readSlots_length env.storage (env.keccak (bytes32 slot)) (slotCount n)
       obtain ⟨v, hv⟩ := goSlice_ok (readSlots env.storage (env.keccak (bytes32 slot)) (slotCount n))
         (env.appendCap (readSlots env.storage (env.keccak (bytes32 slot)) (slotCount n)).length) 0 n
